@@ -13,6 +13,21 @@
    encoding) and a query takes the framework as an immutable value; whether the REAL objects and
    encoders behave like that is exactly what the tie checks on every run (sequences of queries with
    repetitions on one object vs fresh objects, one encoder object reused across encodings).
+     - C06_query_sequence_*: the SEQUENCE form.  In the model a static solver object is the pair
+       (framework view, solver type + encoder); [run_query] takes the view as an immutable value and
+       returns only an outcome, so a query cannot modify the framework: what remains to be shown
+       is that the program state (SAT sessions, counters, log) left behind by earlier queries does
+       not influence later answers.  [run_calls oracle thr g qs] (Proofs/Corollaries.v) runs the
+       queries of the list qs one after the other on the same view g in ONE thread of program
+       state; a query [qcall] records the solver type, encoder, kind, certificate flag, argument
+       list and fuel; [qcall_ok F x] = supported /\ enc_ok /\ al_ok of its fields;
+       [calls_bound g qs] = sum of the per-query call bounds of C18;
+       [sem_status s q F al] = cred s F al for q = QDC, skep s F al for q = QDS.
+       Every outcome of a completed sequence satisfies the specification of its query (so every
+       status is the semantic one), the sequence never panics, and the k1-th answer of one
+       sequence equals the k2-th answer of any other sequence (other order, other repetitions,
+       other backend, other start state) whenever the two queries ask the same question; in
+       particular it equals the answer of the same query put alone to a fresh object.
    Not claimed: equality of the returned EXTENSIONS / certificates (different backends may pick
    different ones; each is correct by C01 / C04).
    Vocabulary of the whole-framework theorems (Proofs/TopBase.v, TopMax.v, SolverTop.v):
@@ -28,7 +43,9 @@
 *)
 From Crusta Require Import Spec.AF Sat.Cnf Sat.Prog Model.Encoders Model.Graph Model.Solvers.
 From Crusta Require Import Proofs.EncSpec Proofs.SolverBasics Proofs.ConfigIndep.
-From Crusta Require Import Proofs.TopBase Proofs.TopMax Proofs.SolverTop.
+From Crusta Require Import Proofs.TopBase Proofs.TopMax Proofs.SolverTop Proofs.Corollaries.
+From Crusta Require Proofs.SolverWholeEx.
+Import ListNotations.
 Open Scope prog_scope.
 
 Theorem C06_complete_query_config_independent_partial :
@@ -62,6 +79,93 @@ Theorem C06_status_function_of_semantics :
   b1 = b2.
 Proof. exact SolverTop.top_status_function_of_semantics. Qed.
 
+(* every outcome of a completed sequence of queries on one solver object satisfies the
+   specification of its query (outcome_spec: C01-C04), whatever was asked before; no panic; the
+   SAT calls add up *)
+Theorem C06_query_sequence_correct :
+  forall oracle thr g F, valid_oracle oracle -> 1 <= thr -> view_good g F ->
+  forall qs st0, Forall (qcall_ok F) qs ->
+  match run_calls oracle thr g qs st0 with
+  | Done os st' =>
+      Forall2 (fun x o => outcome_spec (qc_sem x) (qc_kind x) (qc_cert x) F (qc_args x) o) qs os /\
+      calls st' <= calls st0 + calls_bound g qs
+  | Abort st' | OutOfFuel st' => calls st' <= calls st0 + calls_bound g qs
+  | Panic _ => False
+  end.
+Proof. exact Corollaries.run_calls_correct. Qed.
+
+(* the status of the k-th answer is the semantic status of the k-th query *)
+Theorem C06_query_sequence_status :
+  forall oracle thr g F, valid_oracle oracle -> 1 <= thr -> view_good g F ->
+  forall qs st0 os st' k x b c, Forall (qcall_ok F) qs ->
+  run_calls oracle thr g qs st0 = Done os st' ->
+  nth_error qs k = Some x -> nth_error os k = Some (OAcc b c) ->
+  qc_kind x <> QSE /\ (b = true <-> sem_status (qc_sem x) (qc_kind x) F (qc_args x)).
+Proof. exact Corollaries.run_calls_status. Qed.
+
+(* in whatever order and however often: two sequences, two positions, the same question (solver
+   type, kind of query, arguments; the encoders, certificate flags, fuels, SAT backends,
+   thresholds, views and start states may all differ): the same status *)
+Theorem C06_query_sequence_independent :
+  forall o1 o2 thr1 thr2 g1 g2 F qs1 qs2 st1 st2 os1 os2 t1 t2 k1 k2 x1 x2 b1 c1 b2 c2,
+  valid_oracle o1 -> valid_oracle o2 -> 1 <= thr1 -> 1 <= thr2 ->
+  view_good g1 F -> view_good g2 F ->
+  Forall (qcall_ok F) qs1 -> Forall (qcall_ok F) qs2 ->
+  run_calls o1 thr1 g1 qs1 st1 = Done os1 t1 ->
+  run_calls o2 thr2 g2 qs2 st2 = Done os2 t2 ->
+  nth_error qs1 k1 = Some x1 -> nth_error qs2 k2 = Some x2 ->
+  qc_sem x1 = qc_sem x2 -> qc_kind x1 = qc_kind x2 -> qc_args x1 = qc_args x2 ->
+  nth_error os1 k1 = Some (OAcc b1 c1) -> nth_error os2 k2 = Some (OAcc b2 c2) ->
+  b1 = b2.
+Proof. exact Corollaries.query_sequence_independent. Qed.
+
+(* ... and the same status as the same query put alone (to a fresh object, or after anything) *)
+Theorem C06_query_sequence_vs_alone :
+  forall o1 o2 thr1 thr2 g1 g2 F qs st1 st2 os t1 t2 k x b1 c1 b2 c2 fuel cert e,
+  valid_oracle o1 -> valid_oracle o2 -> 1 <= thr1 -> 1 <= thr2 ->
+  view_good g1 F -> view_good g2 F ->
+  Forall (qcall_ok F) qs -> enc_ok (qc_sem x) e ->
+  run_calls o1 thr1 g1 qs st1 = Done os t1 ->
+  nth_error qs k = Some x -> nth_error os k = Some (OAcc b1 c1) ->
+  run_query o2 thr2 fuel (qc_sem x) (qc_kind x) cert e g2 (qc_args x) st2 = Done (OAcc b2 c2) t2 ->
+  b1 = b2.
+Proof. exact Corollaries.query_sequence_vs_alone. Qed.
+
+(* the hypotheses are satisfiable and sequences complete: on 0 <-> 1 -> 2, 3 -> 3 -> 4 (SolverTop.ex_F)
+   with the brute-force oracle: DS-PR of [2; 4] with certificate, DC-CO of [0], SE-ID, DS-PR of
+   [2; 4] again with another encoder and without certificate, then the first two once more *)
+Definition c06_qA := {| qc_sem := PR; qc_enc := AuxCo; qc_kind := QDS; qc_cert := true; qc_args := [2; 4]; qc_fuel := 100 |}.
+Definition c06_qB := {| qc_sem := CO; qc_enc := AuxCo; qc_kind := QDC; qc_cert := false; qc_args := [0]; qc_fuel := 100 |}.
+Definition c06_qC := {| qc_sem := PR; qc_enc := AuxAdm; qc_kind := QDS; qc_cert := false; qc_args := [2; 4]; qc_fuel := 50 |}.
+Definition c06_qD := {| qc_sem := ID; qc_enc := AuxCo; qc_kind := QSE; qc_cert := false; qc_args := []; qc_fuel := 100 |}.
+Example C06_query_sequence_example :
+  valid_oracle SolverWholeEx.bf_oracle /\ view_good (view_of_af ex_F) ex_F /\
+  Forall (qcall_ok ex_F) [c06_qA; c06_qB; c06_qD; c06_qC; c06_qA; c06_qB] /\
+  (exists st', run_calls SolverWholeEx.bf_oracle 1 (view_of_af ex_F)
+                 [c06_qA; c06_qB; c06_qD; c06_qC; c06_qA; c06_qB] (init_st CadicalLike) =
+               Done [OAcc false (Some [1]); OAcc true None; OExt (Some []); OAcc false None;
+                     OAcc false (Some [1]); OAcc true None] st') /\
+  (exists st', run_calls SolverWholeEx.bf_oracle 2 (view_of_af ex_F) [c06_qB; c06_qC] (init_st BufferedLike) =
+               Done [OAcc true None; OAcc false None] st').
+Proof.
+  split; [exact SolverWholeEx.bf_oracle_valid|].
+  split. { apply (view_good_compact _ 5). split; [reflexivity|].
+           intros a b [E|[E|[E|[E|[E|[]]]]]]; injection E as <- <-; lia. }
+  split.
+  { assert (H : forall a, In a [2; 4] -> In a (args ex_F)) by (intros a [<-|[<-|[]]]; cbn; tauto).
+    assert (HA : qcall_ok ex_F c06_qA) by (split; [exact I|split; [left; reflexivity|exact H]]).
+    assert (HB : qcall_ok ex_F c06_qB).
+    { split; [exact I|split; [reflexivity|]]. intros x [<-|[]]; cbn; tauto. }
+    assert (HC : qcall_ok ex_F c06_qC) by (split; [exact I|split; [right; reflexivity|exact H]]).
+    assert (HD : qcall_ok ex_F c06_qD) by (split; [exact I|split; [left; reflexivity|exact I]]).
+    repeat (constructor; [assumption|]). constructor. }
+  split; eexists; vm_compute; reflexivity.
+Qed.
+
 Print Assumptions C06_complete_query_config_independent_partial.
 Print Assumptions C06_stable_component_backend_independent_partial.
 Print Assumptions C06_status_function_of_semantics.
+Print Assumptions C06_query_sequence_correct.
+Print Assumptions C06_query_sequence_status.
+Print Assumptions C06_query_sequence_independent.
+Print Assumptions C06_query_sequence_vs_alone.
